@@ -12,8 +12,48 @@ Definition ascii_wclass (c : N) : N :=
   else if ((c =? 36) || (c =? 43) || (c =? 60) || (c =? 61) || (c =? 62) || (c =? 94) || (c =? 96) || (c =? 124) || (c =? 126))%N then 2%N
   else 0%N.
 
-Definition no_regex (pattern t : text) : option (list text) := None.
+(* the regexp library as a table filled by the harness with Go's own regexp on exactly the (pattern, text)
+   pairs of the compared regex_match calls: None = "(?mi)"+pattern does not compile, Some groups =
+   FindStringSubmatch (no match = no groups) *)
+Definition rx_table := list (text * text * option (list text)).
+
+Fixpoint table_regex (tb : rx_table) (pattern t : text) : option (list text) :=
+  match tb with
+  | [] => None
+  | (p, x, r) :: rest => if text_eqb p pattern && text_eqb x t then r else table_regex rest pattern t
+  end.
 Definition no_ext (id : N) (args : list value) : res := NoFuel.          (* never compared *)
+
+Definition corr_functions : list (text * fname) := [
+  ([97; 114; 114; 97; 121]%N, FArray)   (* array *);
+  ([99; 104; 97; 114]%N, FChar)   (* char *);
+  ([100; 97; 116; 101; 95; 102; 114; 111; 109; 95; 112; 97; 114; 116; 115]%N, FDateFromParts)   (* date_from_parts *);
+  ([100; 97; 116; 101; 116; 105; 109; 101; 95; 97; 100; 100]%N, FDateTimeAdd)   (* datetime_add *);
+  ([101; 120; 116; 114; 97; 99; 116; 95; 111; 98; 106; 101; 99; 116]%N, FExtractObject)   (* extract_object *);
+  ([102; 105; 101; 108; 100]%N, FField)   (* field *);
+  ([102; 111; 114; 101; 97; 99; 104]%N, FForEach)   (* foreach *);
+  ([102; 111; 114; 109; 97; 116; 95; 110; 117; 109; 98; 101; 114]%N, FFormatNumber)   (* format_number *);
+  ([104; 97; 115; 95; 103; 114; 111; 117; 112]%N, FHasGroup)   (* has_group *);
+  ([109; 97; 120]%N, FMax)   (* max *);
+  ([109; 101; 97; 110]%N, FMean)   (* mean *);
+  ([109; 105; 110]%N, FMin)   (* min *);
+  ([109; 111; 100]%N, FMod)   (* mod *);
+  ([111; 98; 106; 101; 99; 116]%N, FObject)   (* object *);
+  ([112; 101; 114; 99; 101; 110; 116]%N, FPercent)   (* percent *);
+  ([114; 101; 112; 101; 97; 116]%N, FRepeat)   (* repeat *);
+  ([114; 101; 112; 108; 97; 99; 101]%N, FReplace)   (* replace *);
+  ([114; 111; 117; 110; 100]%N, FRound)   (* round *);
+  ([114; 111; 117; 110; 100; 95; 100; 111; 119; 110]%N, FRoundDown)   (* round_down *);
+  ([114; 111; 117; 110; 100; 95; 117; 112]%N, FRoundUp)   (* round_up *);
+  ([116; 101; 120; 116; 95; 115; 108; 105; 99; 101]%N, FTextSlice)   (* text_slice *);
+  ([116; 105; 109; 101; 95; 102; 114; 111; 109; 95; 112; 97; 114; 116; 115]%N, FTimeFromParts)   (* time_from_parts *);
+  ([119; 111; 114; 100]%N, FWord)   (* word *);
+  ([119; 111; 114; 100; 95; 115; 108; 105; 99; 101]%N, FWordSlice)   (* word_slice *)
+].
+
+(* functions.Lookup restricted to the modelled functions (the compared expressions name no others) *)
+Definition corr_lookup (name : text) : option fname :=
+  match find (fun p => text_eqb (fst p) name) corr_functions with Some p => Some (snd p) | None => None end.
 
 Inductive vkind := KNil | KErr | KText | KNum | KBool | KArr | KObj | KFn | KDT | KD | KT.
 
@@ -44,16 +84,18 @@ Inductive target :=
 | TCall (f : fname) (args : list value)
 | TOp (op : binop) (a b : value)
 | TNeg (a : value)
-| TLookup (container lookup : value) (dot : bool).
+| TLookup (container lookup : value) (dot : bool)
+| TEval (ctx : list (text * value)) (e : expr).
 
 Record case := Case { c_target : target; c_impl : impl_res }.
 
-Definition run (t : target) : res :=
+Definition run (rx : rx_table) (t : target) : res :=
   match t with
-  | TCall f args => call_function ascii_wclass no_regex no_ext f args
+  | TCall f args => call_function ascii_wclass (table_regex rx) no_ext f args
   | TOp op a b => eval_binop op a b
   | TNeg a => eval_neg a
   | TLookup c l dot => resolve_lookup c l dot
+  | TEval ctx e => eval ascii_wclass (table_regex rx) no_ext corr_lookup ctx e
   end.
 
 Definition agrees (r : res) (i : impl_res) : bool :=
@@ -67,12 +109,12 @@ Definition agrees (r : res) (i : impl_res) : bool :=
   | _, _ => false
   end.
 
-Definition check (c : case) : bool := agrees (run (c_target c)) (c_impl c).
+Definition check (rx : rx_table) (c : case) : bool := agrees (run rx (c_target c)) (c_impl c).
 
-Fixpoint mismatches_from (i : N) (cs : list case) : list N :=
+Fixpoint mismatches_from (rx : rx_table) (i : N) (cs : list case) : list N :=
   match cs with
   | [] => []
-  | c :: r => if check c then mismatches_from (i + 1) r else i :: mismatches_from (i + 1) r
+  | c :: r => if check rx c then mismatches_from rx (i + 1) r else i :: mismatches_from rx (i + 1) r
   end.
 
-Definition mismatches (cs : list case) : list N := mismatches_from 0 cs.
+Definition mismatches (rx : rx_table) (cs : list case) : list N := mismatches_from rx 0 cs.
